@@ -33,13 +33,13 @@ CHECKS["C18"] = dict(
 
 CHECKS["C08"] = dict(
     technique="static analysis: who-may-write enumeration of every store to the tree representation with alias-tracked child lists, shape checks of the primitives, cross-reference of the import-introspected shared-Expr inventory with every syntactic reference",
-    text="The parent/arg_key/index/hash invariant is kept by a handful of primitives; the check enumerates every other store to the representation in the whole package (args items, pointer fields, _hash, raw list mutation of child lists incl. local aliases) and requires each to be a primitive, a provably sound form, or a reviewed exception; checks invalidate-before-write in set/append and unfiltered mirroring in __deepcopy__; and classifies every reference to a process-wide Expr instance as read/copy/compare vs embedding. Also: the same `*args` nodes are not embedded twice (on one path or once per loop iteration) without a copy, and leaf classes (is_primitive, whose constructor links no children) are never constructed around a node. A node looked up in a local dict must be copied before it is embedded (typed lint). Breaking the invariant from outside the primitives requires one of the flagged constructs; index arithmetic inside the primitives is trusted.",
+    text="The parent/arg_key/index/hash invariant is kept by a handful of primitives; the check enumerates every other store to the representation in the whole package (args items, pointer fields, _hash, raw list mutation of child lists incl. local aliases) and requires each to be a primitive, a provably sound form, or a reviewed exception; checks invalidate-before-write in set/append and unfiltered mirroring in __deepcopy__; and classifies every reference to a process-wide Expr instance as read/copy/compare vs embedding. Also: the same `*args` nodes are not embedded twice (on one path or once per loop iteration) without a copy, and leaf classes (is_primitive, whose constructor links no children) are never constructed around a node. A node looked up in a local dict must be copied before it is embedded (typed lint). Breaking the invariant from outside the primitives requires one of the flagged constructs; index arithmetic inside the primitives is trusted. List arguments are flat (typed), Expression.set re-indexes a child list after every shift on every path, and optimizer helpers never hand a bare parameter to a copy=False builder.",
     ref="DESIGN.md section 4 / C08",
 )
 
 CHECKS["C20"] = dict(
     technique="static analysis: partition typestate of the matching sets (co-location + dominance of guards) and exhaustive CFG path enumeration of the edit-script loop body",
-    text="Every matching_set.add is co-located with the removal of both ids from the unmatched sets, guarded by a both-unmatched proof and by the same-type test (also through the candidate heap); every acyclic path through the per-pair loop body of _generate_edit_script appends exactly one Keep or Update (none only under delta_only) and the two unmatched loops append exactly one Remove/Insert per id; hashes cached on uncopied inputs are evicted in finally and no tree mutator is called by the distiller. These are the mechanisms behind 'each node accounted for exactly once' and 'inputs untouched'; 'delta empty iff equal' depends on run-time similarity scores and is not decided.",
+    text="Every matching_set.add is co-located with the removal of both ids from the unmatched sets, guarded by a both-unmatched proof and by the same-type test (also through the candidate heap); every acyclic path through the per-pair loop body of _generate_edit_script appends exactly one Keep or Update (none only under delta_only) and the two unmatched loops append exactly one Remove/Insert per id; hashes cached on uncopied inputs are evicted in finally and no tree mutator is called by the distiller. These are the mechanisms behind 'each node accounted for exactly once' and 'inputs untouched'; 'delta empty iff equal' depends on run-time similarity scores and is not decided. The distiller's per-call attributes are rebound at the start of diff(), and originals and their copies are listed by the same traversal before they are zipped positionally.",
     ref="DESIGN.md section 4 / C20",
 )
 
@@ -74,7 +74,7 @@ CHECKS["C07"] = dict(
 
 CHECKS["C04"] = dict(
     technique="static analysis: exhaustive writer/reader table agreement over all dialect classes (import-introspected tables vs. predicates mirroring the tokenizer's branches, anchored on those branches), emitter-funnel and comment-emission lints",
-    text="For each of the 35 dialect classes the generator's escaping tables are checked against the tokenizer's acceptance conditions: the escaped quote is read back as a quote, every reader escape is neutralised by the writer, every writer sequence decodes, identifier escape characters are escaped and decoded, overrides of the emitters delegate, and comments are block comments sanitised on both markers. These relations are necessary for 'a value can never terminate its own quoting'; the rule R7 pins the reader branches the predicates mirror so a tokenizer change cannot silently invalidate them. Byte/raw/national/heredoc literals and the full for-all-strings round trip are not decided.",
+    text="For each of the 35 dialect classes the generator's escaping tables are checked against the tokenizer's acceptance conditions: the escaped quote is read back as a quote, every reader escape is neutralised by the writer, every writer sequence decodes, identifier escape characters are escaped and decoded, overrides of the emitters delegate, and comments are block comments sanitised on both markers. These relations are necessary for 'a value can never terminate its own quoting'; the rule R7 pins the reader branches the predicates mirror so a tokenizer change cannot silently invalidate them. Byte/raw/national/heredoc literals and the full for-all-strings round trip are not decided. No generator f-string may place raw node text (.name/.this/.text()/args.get) between hand-written single quotes: what is interpolated inside an opened quote must be escaped (escape_str / explicit quote replacement), rendered SQL or a constant.",
     ref="DESIGN.md section 4 / C04",
 )
 
@@ -92,7 +92,7 @@ CHECKS["C05"] = dict(
 
 CHECKS["C09"] = dict(
     technique="static analysis: ownership/effect classification of every use of a borrowed tree in functions with a copy flag, dominance of copy-before-use at the non-mutating entry points, ownership of receivers at copy=False call sites",
-    text="In each of the ~100 functions with a copy parameter, every use of the caller's tree (self of expression methods; parameters handed on with copy=copy) is classified and must be a read, a copy or a threaded pass-on; generate() must copy before use with default True and every public route must thread it; optimize() must feed its rules only from maybe_parse(copy=True); transform/expand/replace_*/lineage must copy or thread; __deepcopy__ must create fresh nodes and deep-copy comments/type/meta; copy=False call sites outside the in-place layers must act on owned trees. This is the discipline on which 'non-mutating APIs leave arguments untouched' rests; mutations performed by *_sql methods on generate()'s private copy are not enumerated. Sub-trees read out of the caller's tree before it is copy-guarded must not be embedded into new nodes (taint from borrowed parameter to constructor/set/append arguments).",
+    text="In each of the ~100 functions with a copy parameter, every use of the caller's tree (self of expression methods; parameters handed on with copy=copy) is classified and must be a read, a copy or a threaded pass-on; generate() must copy before use with default True and every public route must thread it; optimize() must feed its rules only from maybe_parse(copy=True); transform/expand/replace_*/lineage must copy or thread; __deepcopy__ must create fresh nodes and deep-copy comments/type/meta; copy=False call sites outside the in-place layers must act on owned trees. This is the discipline on which 'non-mutating APIs leave arguments untouched' rests; mutations performed by *_sql methods on generate()'s private copy are not enumerated. Sub-trees read out of the caller's tree before it is copy-guarded must not be embedded into new nodes (taint from borrowed parameter to constructor/set/append arguments). A parameter adopted by maybe_parse/maybe_copy without the copy flag must not be returned as is, and replace_placeholders inserts copies of the caller's replacement values.",
     ref="DESIGN.md section 4 / C09",
 )
 
